@@ -393,7 +393,7 @@ class Driver:
                 else:
                     with open(os.path.join(rd, 'release.%d' % nland), 'w') as f:
                         f.write('go')
-            elif ev['action'] in ('sigkill', 'sigterm', 'raise'):
+            elif ev['action'] in ('sigkill', 'sigterm', 'raise', 'interrupt'):
                 pass
         obs['stage'] = 'events-done'
         if case.get('kill_after'):
